@@ -203,7 +203,7 @@ func c16Configs(c *lib.Ctx) []simx.ChainCfg {
 		}
 	}
 	for _, m := range dramKinds {
-		for _, pol := range []string{"", "-close"} {
+		for _, pol := range []string{"", "-open"} {
 			for _, st := range [][]string{{}, {"wb"}} {
 				for _, eager := range []bool{false, true} {
 					out = append(out, simx.ChainCfg{Stages: st, Memory: m + pol, NumMem: 1, PortBuf: 4, Lat: 1, MSHR: 2, Eager: eager})
